@@ -1,4 +1,5 @@
 import RsMatterVerif.Model.Pase
+import RsMatterVerif.Model.PaseFs
 import Driver.Util
 /-! Driver for C02: replays the harness' scripts (window operations - basic and enhanced -, virtual
 time, PASE initiators played message by message against the real responder, duplicated / re-sent
@@ -51,6 +52,8 @@ structure Spec where
 
 structure St where
   m : Pase.St := {}
+  /-- the fail-safe (`Model/PaseFs.lean`): the instant it expires when armed -/
+  fs : Option Nat := none
   devPw : Nat := 0
   /-- a handshake message is mutated in flight: the case is judged by the oracle only -/
   tamper : Bool := false
@@ -79,7 +82,7 @@ def tabOf (s : Pase.St) : String :=
 def paseCount (s : Pase.St) : Nat :=
   (s.table.filter (fun sl => match sl with | .pase _ => true | _ => false)).length
 
-def obsOf (s : Pase.St) : String :=
+def obsOf (s : Pase.St) (fs : Option Nat := none) : String :=
   let w := if s.window.isSome then "1" else "0"
   let f := match s.window with | some x => toString x.failures | none => "-"
   let mk := if s.marker.isSome then "1" else "0"
@@ -88,7 +91,7 @@ def obsOf (s : Pase.St) : String :=
     | some (d, true) => ("1", toString d)
     | some (_, false) => ("0", "-")
     | none => ("-", "-")
-  s!"w={w} f={f} m={mk} s={paseCount s} adv={adv} {tabOf s} enh={enh} disc={disc}"
+  s!"w={w} f={f} m={mk} s={paseCount s} adv={adv} {tabOf s} enh={enh} disc={disc} fs={if fs.isSome then 1 else 0}"
 
 def replyOf : Out → String
   | .none => "silent"
@@ -171,7 +174,7 @@ def step (st : St) (line : String) : St × String :=
     let setIni (st : St) (i : Ini) : St := { st with inis := i :: st.inis.filter (·.k ≠ i.k) }
     let victim := victimOf ((o'.get "ev").getD "-")
     -- the model event(s)
-    let (mev, st) : Option Ev × St :=
+    let (mev0, st) : Option Ev × St :=
       match head with
       | "open" => (some (.op (.openWin (st.devPw * 1000 + st.opens + 1) (m.num "t"))), st)
       | "openenh" =>
@@ -233,6 +236,10 @@ def step (st : St) (line : String) : St × String :=
         | some (_, c, o) => (some (.msg c o), st)
         | none => (none, st)
       | _ => (none, st)
+    let mev : Option FEv := match head with
+      | "cmdrevoke" => some .cmdRevoke
+      | "fspoll" => some .fsPoll
+      | _ => mev0.map .ev
     if head = "rxto" then
       let want := s!"rxto={rxTimeoutMs { active := m.num "pa", idle := m.num "pi", thresh := m.num "pt" } (m.num "la")}"
       if reply = want then (st, "ok") else (st, s!"DIS {want}")
@@ -240,9 +247,11 @@ def step (st : St) (line : String) : St × String :=
     match mev with
     | none => (st, "BAD op")
     | some mev =>
-      let (m1, o) := Pase.stepEv st.m mev
-      -- the network delivered the datagram twice
-      let m1 := if m.get "dup" = some "1" then (Pase.stepEv m1 mev).1 else m1
+      let (f1, o) := Pase.stepF { st := st.m, fs := st.fs } mev
+      -- the network delivered the datagram twice; or the answer was lost and the initiator's MRP retransmission
+      -- of the request reached the device as well
+      let f1 := if m.get "dup" = some "1" || m.get "rdrop" = some "1" then (Pase.stepF f1 mev).1 else f1
+      let m1 := f1.st
       -- handshakes whose peer stays silent throughout a long `tick` die inside it
       let reaped : Option Pase.St :=
         if head = "tick" then reap m1 (now + m.num "ms") else some m1
@@ -256,7 +265,7 @@ def step (st : St) (line : String) : St × String :=
         | .pake2 pB => setIni st { (st.inis.find? (fun (i : Ini) => i.k = k)).getD { k := k } with pB := some pB }
         | _ => st
       -- the op itself takes (virtual) time: the observation is made after it
-      let st := { st with m := m' }
+      let st := { st with m := m', fs := f1.fs }
       -- ---------------- specification on the implementation's observation ----------------
       let implW := o'.get "w" = some "1"
       let implS := o'.num "s"
@@ -270,7 +279,7 @@ def step (st : St) (line : String) : St × String :=
           if reply = "ok" then { sp with win := some (st.devPw, now + m.num "t" * 1000, 0), lingering := false } else sp
         | "openenh" | "cmdopen" =>
           if reply = "ok" then { sp with win := some (m.num "pw", now + m.num "t" * 1000, 0), lingering := false } else sp
-        | "revoke" => { sp with win := none }
+        | "revoke" | "cmdrevoke" => { sp with win := none }
         | _ => sp
       -- (1) a session appears only at a Pake3 with the passcode of the open window's verifier, an unmodified /
       --     unreplayed confirmation, not at a re-sent datagram, while the window is open (present and unexpired)
@@ -338,12 +347,12 @@ def step (st : St) (line : String) : St × String :=
             | some w => s!"pbkdfresp it={w.iterations} sl={w.saltLen} rxto={rx}"
             | none => "pbkdfresp"
           | _ => replyOf o
-        let mo := s!"{ro} | {obsOf m'}"
+        let mo := s!"{ro} | {obsOf m' f1.fs}"
         -- the classes of the evicted sessions are an input (they choose the model's victim), not compared
         let io := s!"{reply} | {" ".intercalate ((words obs).filter (fun w => !(w.startsWith "ev=") && !(w.startsWith "hit=")))}"
         -- `tick` / `poll` / `abort` print `-` as reply
-        let mo := if head = "tick" || head = "poll" || head = "abort" then s!"- | {obsOf m'}" else mo
-        let mo := if head = "revoke" then s!"ok | {obsOf m'}" else mo
+        let mo := if head = "tick" || head = "poll" || head = "abort" || head = "fspoll" then s!"- | {obsOf m' f1.fs}" else mo
+        let mo := if head = "revoke" then s!"ok | {obsOf m' f1.fs}" else mo
         if mo = io then (st, "ok") else (st, s!"DIS {mo}")
   | _ => (st, "BAD line")
 
